@@ -16,6 +16,7 @@ import (
 	"encoding/binary"
 	"flag"
 	"fmt"
+	"math/bits"
 	"os"
 	"strconv"
 	"strings"
@@ -117,7 +118,11 @@ func callOn(fn, args string, d []byte) (res string) {
 	p := hx.Try(func() {
 		switch fn {
 		case "hzb":
-			res = "ok:" + fmtBool(avc.VerifHasZeroByte(uint(binary.LittleEndian.Uint64(d))))
+			if wordBytes == 4 {
+				res = "ok:" + fmtBool(avc.VerifHasZeroByte(uint(binary.LittleEndian.Uint32(d))))
+			} else {
+				res = "ok:" + fmtBool(avc.VerifHasZeroByte(uint(binary.LittleEndian.Uint64(d))))
+			}
 		case "scan":
 			scs, m := avc.VerifGetStartCodePositions(d)
 			lastRender = func() string {
@@ -224,9 +229,23 @@ func callOn(fn, args string, d []byte) (res string) {
 
 var caseID int
 
+// wordBytes is the size of the platform's uint, the machine word getStartCodePositions loads: 8 on amd64/arm64,
+// 4 when this harness is built with GOARCH=386 (checks/c14.py builds and runs both).
+const wordBytes = bits.UintSize / 8
+
+// platformFn names the case kind: the functions that depend on the machine word (hasZeroByte, the scanner and the
+// conversion built on it) get the suffix 32 on a 32-bit build, where the model driver answers them with the
+// transcription for uintSize = 4.
+func platformFn(fn string) string {
+	if wordBytes == 4 && (fn == "hzb" || fn == "scan" || fn == "b2s") {
+		return fn + "32"
+	}
+	return fn
+}
+
 func emit(fn, args string, in []byte) {
 	caseID++
-	fmt.Fprintf(out, "F\t%d\t%s\t%s\t%s\t%s\n", caseID, fn, args, hx.Hex(in), call(fn, args, in))
+	fmt.Fprintf(out, "F\t%d\t%s\t%s\t%s\t%s\n", caseID, platformFn(fn), args, hx.Hex(in), call(fn, args, in))
 }
 
 // ---------------------------------------------------------------- generators
@@ -511,11 +530,11 @@ func smallLengths(b []byte) bool {
 	// exact: simulate the walk with int positions
 	pos := 0
 	for pos+4 <= len(b) {
-		n := int(binary.BigEndian.Uint32(b[pos : pos+4]))
+		n := binary.BigEndian.Uint32(b[pos : pos+4])
 		if n >= 1<<16 {
 			return false
 		}
-		pos += 4 + n
+		pos += 4 + int(n)
 	}
 	return true
 }
@@ -557,13 +576,13 @@ func streamFns(hevcMode bool, r *hx.Rng, in []byte) {
 func presentType(hevcMode bool, r *hx.Rng, in []byte) int {
 	var ts []int
 	for pos := 0; pos+4 < len(in); {
-		n := int(binary.BigEndian.Uint32(in[pos : pos+4]))
+		n := binary.BigEndian.Uint32(in[pos : pos+4])
 		pos += 4
 		ts = append(ts, typeOf(hevcMode, in[pos:pos+1]))
-		if n > len(in)-pos {
+		if int64(n) > int64(len(in)-pos) {
 			break
 		}
-		pos += n
+		pos += int(n)
 	}
 	k, pick := r.Intn(3), r.U64()
 	if len(ts) > 0 && k != 0 {
@@ -604,7 +623,7 @@ func corr(seed uint64, n, plen int, bgs []int) {
 	forEachWord(seed, n, func(w uint64) {
 		var b [8]byte
 		binary.LittleEndian.PutUint64(b[:], w)
-		emit("hzb", "-", b[:])
+		emit("hzb", "-", b[:wordBytes])
 	})
 	// 2 scanner + conversion on arbitrary bytes
 	k := 0
@@ -829,12 +848,16 @@ func hygABA(site, fn, args string, in []byte, res string) {
 	}
 }
 
+// bigMax bounds the unit sizes of the "any sizes" family of the search (the second, 32-bit run of the quick tier
+// stops at 128 KiB; the thorough tier runs everything on both platforms).
+var bigMax = 1 << 30
+
 func search(seed uint64, n, plen int, bgs []int) {
 	// hasZeroByte = some byte is zero
 	forEachWord(seed+1, n, func(w uint64) {
 		var b [8]byte
 		binary.LittleEndian.PutUint64(b[:], w)
-		check("avc.hasZeroByte", "hzb", "-", b[:], "ok:"+fmtBool(bytes.IndexByte(b[:], 0) >= 0), "zero-byte test")
+		check("avc.hasZeroByte", "hzb", "-", b[:wordBytes], "ok:"+fmtBool(bytes.IndexByte(b[:wordBytes], 0) >= 0), "zero-byte test")
 	})
 	// scanner = naive scan on arbitrary bytes
 	forEachScanInput(seed+1, n, plen, bgs, func(b []byte) {
@@ -855,6 +878,15 @@ func search(seed uint64, n, plen int, bgs []int) {
 		fmt.Sprintf("%d/4,4/4", 1<<24+k),
 		fmt.Sprintf("2/3,%d/3,1/4", 1<<24+k),
 	} {
+		mx := 0
+		for _, e := range strings.Split(d, ",") {
+			if sz, _ := strconv.Atoi(strings.SplitN(e, "/", 2)[0]); sz > mx {
+				mx = sz
+			}
+		}
+		if mx > bigMax {
+			continue
+		}
 		for _, h := range []string{"0", "1"} {
 			desc := fmt.Sprintf("%d:%s:%s", seed, h, d)
 			_, hm, us := genBig("st:" + desc)
@@ -893,6 +925,7 @@ func main() {
 	n := fs.Int("n", 1000, "")
 	plen := fs.Int("plen", 5, "")
 	bgs := fs.String("bgs", "16,17,24,31,33", "")
+	fs.IntVar(&bigMax, "bigmax", bigMax, "search: largest unit size of the 'any sizes' family (default: 16 MiB units included)")
 	_ = fs.Parse(os.Args[2:])
 	switch os.Args[1] {
 	case "corr":
